@@ -33,7 +33,7 @@ ARGV0 = 'main.py'
 
 MATCHER_OK = {'(="\U0001F600")': True, '(="é\u2028")': True,
               'wl_pointer': True, '! .motion': True, '(="a b")': True, '[': False, 'a:b:c': False, '(="q\\z")': True,
-              'wl_surface.commit': True, '(="a\\tb")': True, 'run': True, 'g': True}
+              'wl_surface.commit': True, '(="a\\tb")': True, 'run': True, 'g': True, '(="100%, %s %%")': True, ' ': False}
 
 UNITS = [
     ('-C',), ('--color',), ('--supress',), ('-p',), ('-r',), ('-g',), (PROG,),
@@ -47,6 +47,8 @@ UNITS = [
     ('-rf',), ('-geometry', '80x24'),
     # option values that spell a marker without its dashes
     ('-f', 'run'), ('-l', 'gdb'), ('-b', 'g'),
+    # per cent signs in a value; a value made of blanks only
+    ('-f', '(="100%, %s %%")'), ('-b', ' '),
 ]
 MARKER_UNITS = {('-r',), ('-g',), ('--run',), ('--gdb',), ('-Cr',), ('-Cg',), ('-pr',)}
 
@@ -249,7 +251,7 @@ def gen_cli(tier):
     lefts = [[], ['-C'], ['-f', 'wl_pointer'], ['--supress', '-b', '(="a b")'], ['-f', '! .motion', '-C'],
              ['-f', '(="q\\z")'], ['-f', '(="a\\tb")'], ['-f', '(="\U0001F600 é\u2028")']]
     rights = [[], ['-f', '-r', '--gdb', '-Cg'], ['a b', 'q"z', 'back\\slash', ''], ['--run', '-p', '-l', 'x'], ['--', '-x', '--'],
-              ['-rf', 'some dir', '-geometry', '80x24', '-args', '-gr']]
+              ['-rf', 'some dir', '-geometry', '80x24', '-args', '-gr'], ['--matcher-help', '--help', '-h', '100%s']]
     markers = ['-r', '--run'] if tier == 'quick' else ['-r', '--run', '-Cr']
     for l in lefts:
         for r in rights:
